@@ -76,16 +76,18 @@ Setting(pad, eol, maxl, pm) == [padding |-> pad * dB, eol |-> eol * dB, maxLen |
                                 conIn |-> 300000, conOut |-> 400000,
                                 lib |-> {"std_low_gain", "std_medium_gain", "std_high_gain"}]
 AllSettings == {Setting(p, e, m, pm) : p \in {0, 10}, e \in {0, 1}, m \in {100, 150}, pm \in BOOLEAN}
+\* strength-3 half fraction of the 16 settings (even parity of the four binary factors)
+HalfSettings == {Setting(p, e, m, ((p \div 10) + e + ((m - 100) \div 50)) % 2 = 1) : p \in {0, 10}, e \in {0, 1}, m \in {100, 150}}
 FewSettings == {Setting(10, 0, 150, TRUE), Setting(0, 1, 100, FALSE), Setting(10, 1, 100, TRUE), Setting(0, 0, 150, FALSE)}
 
-Graphs == IF Tier = "quick"
-          THEN {Pair(c) : c \in Chains}
-          ELSE {Pair(c) : c \in Chains} \cup {Line3(c, d) : c \in Chains \ Raman, d \in Chains \ Raman}
+Graphs == {Pair(c) : c \in Chains}
+GraphsHalf == IF Tier = "quick" THEN {} ELSE {Line3(c, d) : c \in Chains \ Raman, d \in Chains \ Raman}
 GraphsFew == IF Tier = "quick"
              THEN {Line3(c, d) : c \in Reps, d \in Reps} \cup {Tri(c, d, e) : c \in Few, d \in Few, e \in {<<F(80 * km)>>}}
              ELSE {Tri(c, d, e) : c \in Reps, d \in Reps, e \in Few} \cup {Star(c, d, e) : c \in Reps, d \in Reps, e \in Few}
 
 MCCases == {[g |-> x, s |-> s] : x \in Graphs, s \in AllSettings}
+           \cup {[g |-> x, s |-> s] : x \in GraphsHalf, s \in HalfSettings}
            \cup {[g |-> x, s |-> s] : x \in GraphsFew, s \in FewSettings}
 
 \* B2: one line per enumerated case (printed for the initial state of its behaviour); the harness renders it as
